@@ -1,5 +1,5 @@
 (** * C11 — recorded market-data histories are complete, aligned and faithful *)
-From Bourse Require Import Model.Types Model.Book Model.Obs Model.Rng Model.Env Model.EnvObs Proofs.EnvProps Proofs.Ledger Proofs.StepVolume.
+From Bourse Require Import Model.Types Model.Book Model.Obs Model.Rng Model.Env Model.EnvObs Proofs.EnvProps Proofs.Ledger Proofs.StepVolume Proofs.CacheInv Proofs.Aligned.
 
 (** What a step records: exactly one record per asset, which is that asset's
     level-2 data at the end of the step (bid fields from the bid getters, ask
@@ -37,6 +37,21 @@ Theorem c11_step_volume_is_logged_trades : forall L e g e' g',
     en_tvols e' = map (fun p => fst p ++ [b_tvol (snd p)]) (combine (en_tvols e) (en_market e')).
 Proof. exact step_volume_is_logged_trades. Qed.
 
+(** Aligned: every recorded series of every asset (each per-level series is a projection of the
+    record list) and every per-step volume series has exactly as many entries as steps were taken -
+    0 at construction, one more after each step, unchanged by every other operation. *)
+Theorem c11_aligned_at_construction : forall L t0 ticks step trading e,
+  menv_new L t0 ticks step trading = Ok e -> Aligned 0 e.
+Proof. exact aligned_new. Qed.
+
+Theorem c11_aligned_after_step : forall L e g e' g' k,
+  Aligned k e -> menv_step L e g = Ok (e', g') -> Aligned (S k) e'.
+Proof. exact aligned_step. Qed.
+
+Theorem c11_aligned_between_steps : forall L e g o e' g' x k,
+  env_op o -> o <> EStep -> Aligned k e -> menv_apply L e g o = Ok (e', g', x) -> Aligned k e'.
+Proof. exact aligned_other. Qed.
+
 (** Submissions and toggles never touch the histories (C10's theorems), so the
     series change only in [menv_step]. *)
 Check c11_step_records.
@@ -55,3 +70,6 @@ Proof. vm_compute. reflexivity. Qed.
 Print Assumptions c11_step_records.
 Print Assumptions c11_records_grow.
 Print Assumptions c11_step_volume_is_logged_trades.
+Print Assumptions c11_aligned_at_construction.
+Print Assumptions c11_aligned_after_step.
+Print Assumptions c11_aligned_between_steps.
